@@ -1133,6 +1133,7 @@ func ruleC03Parse(c *Checker) {
 	// '!' → negated
 	bangT, _ := byteCmp('!', true)
 	nNeg := 0
+	bangAsValue := false
 	eachInstr(rd, func(in ssa.Instruction) {
 		st, ok := in.(*ssa.Store)
 		if !ok {
@@ -1145,6 +1146,13 @@ func ruleC03Parse(c *Checker) {
 		if b, isC := constBool(st.Val); isC && b {
 			nNeg++
 			c.check(guarded(st.Block(), bangT), R, name, "negated set on '!'", p.Pos(st.Pos()), "rule.negated = true only for lines starting with '!'", "a rule is marked negated without a leading '!'")
+		} else if bo, ok := st.Val.(*ssa.BinOp); ok && bo.Op == token.EQL {
+			// `negated := pattern[0] == '!'`: the test itself is the flag
+			if k, isC := constInt(bo.Y); isC && k == '!' {
+				nNeg++
+				bangAsValue = true
+				c.pass(R, name, "negated set on '!'", p.Pos(st.Pos()), "rule.negated is the result of the '!' test")
+			}
 		} else if ph, ok := st.Val.(*ssa.Phi); ok {
 			// the flag comes out of the line parser as a value: true on the ways in that are past the '!' test only
 			okAll, some := true, false
@@ -1175,7 +1183,7 @@ func ruleC03Parse(c *Checker) {
 			}
 		}
 	})
-	c.check(nNeg > 0 && len(bangT) > 0, R, name, "'!' recognised", p.Pos(rd.Pos()), "a leading '!' negates the rule", "a leading '!' is no longer recognised as negation")
+	c.check(nNeg > 0 && (len(bangT) > 0 || bangAsValue), R, name, "'!' recognised", p.Pos(rd.Pos()), "a leading '!' negates the rule", "a leading '!' is no longer recognised as negation")
 	// negationsAfter flagged on the '!' edge
 	naVar := p.FieldVar("ignorefiles", "rule", "negationsAfter")
 	nNA := 0
